@@ -35,13 +35,16 @@
    load an offset table (scope note of the design).                        *)
 EXTENDS PtrHeap, TLC, Json
 
-CONSTANTS NS,         \* number of streams (max)
-          MaxEv,      \* events per stream (max)
+CONSTANTS NS,         \* number of streams (PlayerHeap: exactly NS, empty ones included; explicit systems: 1..NS)
+          MaxEv,      \* events per stream (max) of the explicit systems; PlayerHeap streams have any length
           Clocks,     \* raw clock values
           Offsets,    \* clock offsets a loom may have
           NL,         \* looms (max)
           Base,       \* raw clock origin (corrected clocks must be >= 0, see StepStream)
-          PVariant,   \* "ok" or a deliberately wrong player (negative configurations)
+          PVariant,   \* "ok" or a deliberately wrong player (negative configurations): "popfirst" pops
+                      \* before re-inserting the stepped stream, "rawkey" never applies the offset,
+                      \* "wrongsign" subtracts it, "firstloaded" takes firstclock from the first
+                      \* loaded stream, "nosort" leaves the stream list in enumeration order
           MPick       \* "min" (the property) or "any" (negative configuration of Merge)
 
 None == -1000
